@@ -692,3 +692,60 @@ def num_order(rep, ctx, rid="C07-NUM-ORDER"):
         else:
             r.bad("partial_cmp", "partial_cmp is not Some(self.cmp(other)): < <= > >= could disagree with the sort order",
                   pb_.where())
+
+
+
+def double_accept(rep, lib, rid="C01-DOUBLE-ACCEPT"):
+    """Every finite double the text denotes is accepted as that double; inf / NaN are not."""
+    import math
+    r = rep.rule(rid, "parse_to_double: whatever finite double str::parse::<f64> yields - zero of either sign, a "
+                 "subnormal, the smallest normal, ordinary values, f64::MAX - is handed unchanged to From<f64> for "
+                 "JsonValue and returned as Ok; an infinite or NaN result is an error", floor=9,
+                 analysis="A5 partial evaluation of parse_to_double with the result of str::parse::<f64> seeded")
+    b = PR.parser_body(lib, "parse_to_double")
+    if b is None:
+        r.missing("parse_to_double")
+        return r
+    reps = [("0.0", 0.0, True), ("-0.0", -0.0, True), ("5e-324", 5e-324, True),
+            ("2.2250738585072009e-308", 2.2250738585072009e-308, True),
+            ("2.2250738585072014e-308", 2.2250738585072014e-308, True), ("1.5", 1.5, True), ("-1e300", -1e300, True),
+            ("1.7976931348623157e308", 1.7976931348623157e308, True), ("1e400", math.inf, False),
+            ("-1e400", -math.inf, False), ("NaN", math.nan, False)]
+    for text, x, accept in reps:
+        seen = []
+
+        def model(c, av, envv, pe, x=x):
+            n = c.full or c.name or ""
+            if "<impl str>::parse::<f64>" in n:
+                return (True, ("adt", 0, (("f", x),)))
+            if (c.name or "") == FROM_F64 or ((c.callee or "") in ("std::convert::From::from", "std::convert::Into::into")
+                                              and "f64" in " ".join(c.gargs or [])):
+                seen.append(pe._deref_all(envv, av[0]) if av else None)
+                return (True, ("tok", "value"))
+            return None
+        try:
+            res = PE(b, model, eq_ok=common.derived_eq_ok(lib)).run()
+        except RuntimeError as e:
+            r.bad("parse_to_double[%s]" % text, "not evaluated: %s" % e, b.where())
+            continue
+        rets = {v for _, v in res.returns}
+        oks = [v for v in rets if v is not None and v[0] == "adt" and v[1] == 0]
+        errs = [v for v in rets if v is not None and v[0] == "adt" and v[1] == 1]
+        key = "parse_to_double[%s]" % text
+        if res.forks or None in rets:
+            r.bad(key, "the outcome for this value is not determined by the parsed double (unrecognised idiom)", b.where())
+        elif accept:
+            same = len(seen) >= 1 and all(v is not None and v[0] == "f" and (
+                v[1] == x and math.copysign(1.0, v[1]) == math.copysign(1.0, x)) for v in seen)
+            if oks and not errs and same:
+                r.ok(key, "accepted as is", b.where())
+            else:
+                r.bad(key, "the finite double %s is %s" % (text, "rejected: the number (a valid JSON number) is reported "
+                      "as an error and dropped" if errs else "not handed unchanged to the value constructor (%s)" % seen),
+                      b.where())
+        else:
+            if errs and not oks:
+                r.ok(key, "rejected", b.where(), nontrivial=False)
+            else:
+                r.bad(key, "a non-finite result is accepted", b.where())
+    return r
